@@ -8,6 +8,7 @@ type ReplayRecord struct {
 	Kind       string            `json:"kind"`
 	Clause     string            `json:"clause"`
 	ClausePos  string            `json:"clause_pos"`
+	Where      string            `json:"site_position,omitempty"`
 	Solver     string            `json:"solver"`
 	Status     string            `json:"solver_status"`
 	Output     string            `json:"solver_output"`
@@ -17,7 +18,7 @@ type ReplayRecord struct {
 }
 
 func buildReplay(v *Verifier, prop string, o *Obligation) *ReplayRecord {
-	r := &ReplayRecord{Property: prop, Obligation: o.Name, Function: o.Func, Kind: o.Kind, Clause: o.Clause, ClausePos: o.Pos,
+	r := &ReplayRecord{Property: prop, Obligation: o.Name, Function: o.Func, Kind: o.Kind, Clause: o.Clause, ClausePos: o.Pos, Where: o.Where,
 		Solver: o.Res.Solver, Status: o.Res.Status, Output: trunc(o.Res.Output, 4000)}
 	return r
 }
